@@ -13,7 +13,8 @@ def gens(tier):
          {"module": "MC_Gram", "constants": {"MaxLen": 7, "Start": '"Typ"', "Mutate": "TRUE"}, "invariants": INV},
          {"module": "MC_Gram", "constants": {"MaxLen": 7, "Start": '"InitArgs"', "Mutate": "TRUE"}, "invariants": INV},
          {"module": "MC_Gram", "constants": {"MaxLen": 8, "Start": '"Test"', "Mutate": "TRUE"}, "invariants": INV},
-         {"module": "MC_Lex", "constants": {"MaxLen": 3 if q else 4}, "invariants": ["Emit"]}]
+         {"module": "MC_Lex", "constants": {"MaxLen": 3 if q else 4, "Kind": '"lex"'}, "invariants": ["Emit"]},
+         {"module": "MC_Lex", "constants": {"MaxLen": 5 if q else 6, "Kind": '"num"'}, "invariants": ["Emit"]}]
     return g
 
 def run(tier, seed):
@@ -59,7 +60,7 @@ def run(tier, seed):
             if n in (100, 60000):
                 res.sample({"origin": a["origin"], "inputs": [x["s"] for x in a["res"]][:3], "result": a["res"][0]["r"]})
     res.rule = ("TLC: every sentence of the value grammar (<=%s tokens) and of the program/type/init-args/test grammars with all single-token delete/duplicate/replace mutants (MC_Gram), every string of <=%d lexer "
-                "character classes in 7 contexts (MC_Lex); each token sentence instantiated with 3 choices of terminals from boundary sets (0, 2^32-1, 2^32, 0x/0X, underscores, leading zeros, 40-digit numerals, "
+                "character classes and every string of <=5 numeral characters (0 1 _ x X f + - . e) in 7 contexts (MC_Lex); each token sentence instantiated with 3 choices of terminals from boundary sets (0, 2^32-1, 2^32, 0x/0X, underscores, leading zeros, 40-digit numerals, "
                 "escapes); nesting templates to depth 128; each string through parse_idl_args, parse_idl_value, IDLProg (+check_prog), IDLType, IDLTypes, IDLInitArgs, Test, in debug and release builds. "
                 "non-trivial = input longer than 6 characters; distinct by input text" % ("6/8" if tier == "quick" else "7/8", 3 if tier == "quick" else 4))
     res.assumptions = ["acceptance vs. the specification's grammar is not gated (the statement asks for totality)", "TLC supplies the inputs; absence of panics is observed by running the real parsers"]
